@@ -1,7 +1,302 @@
-//! Placeholder for the `runtime` subcommand (to be implemented separately).
+//! `runtime` / `runtime-replay` subcommands: the streaming APIs of `fn_graph` under a controlled
+//! single-task executor (FORMAT.md, "Runtime cases").
+//!
+//! * `runtime --tier <quick|thorough> --seed <u64> --out <path>`: generate cases (`rt_gen.rs`), run
+//!   them against the real `fn_graph` (`rt_exec.rs`), write each `CASE` line followed by its `OBS`
+//!   lines, then one `STATS runtime family=<name> cases=<k>` line per family.
+//! * `runtime-replay --in <path> --out <path>`: re-run every `CASE X|S|H|Y` line of the input.
+//!
+//! Panics, hangs (call pending, nothing in flight, flag clear), stream stalls (a releasable
+//! function that can no longer be yielded) and settle livelocks are counted per family and the
+//! first few offending CASE lines are printed on stderr; the output file carries no such verdicts.
 
-pub fn main_runtime(args: &[String]) -> i32 {
-    let _ = args;
-    eprintln!("not implemented");
+#[cfg(not(feature = "interruptible"))]
+pub fn main_runtime(_args: &[String]) -> i32 {
+    eprintln!("the runtime subcommands need the `interruptible` feature");
     2
+}
+
+#[cfg(not(feature = "interruptible"))]
+pub fn main_runtime_replay(_args: &[String]) -> i32 {
+    eprintln!("the runtime subcommands need the `interruptible` feature");
+    2
+}
+
+#[cfg(feature = "interruptible")]
+pub use imp::{main_runtime, main_runtime_replay};
+
+#[cfg(feature = "interruptible")]
+mod imp {
+    use std::fs::File;
+    use std::io::{BufRead, BufReader, BufWriter, Write};
+    use std::time::Instant;
+
+    use crate::builder_gen::Tier;
+    use crate::rng::Rng;
+    use crate::rt_case::{fmt_rt_case, parse_rt_case_line, RtCase};
+    use crate::rt_exec::{run_rt_case, RtFlags};
+    use crate::{check_opts, opt, usage};
+
+    /// How many offending CASE lines are printed per family and anomaly kind.
+    const ANOMALY_LINES: usize = 4;
+    /// CASE lines longer than this are cut on stderr.
+    const ANOMALY_LINE_MAX: usize = 600;
+
+    #[derive(Default)]
+    struct FamilyStats {
+        cases: u64,
+        kinds: [u64; 4],
+        obs: u64,
+        panic: u64,
+        hang: u64,
+        stall: u64,
+        livelock: u64,
+        build_failed: u64,
+        harness_panic: u64,
+        micros: u128,
+    }
+
+    #[derive(Default)]
+    struct Stats {
+        families: Vec<(String, FamilyStats)>,
+    }
+
+    impl Stats {
+        fn entry(&mut self, family_token: &str) -> &mut FamilyStats {
+            let name = family_token.split('-').next().unwrap_or(family_token);
+            let idx = match self.families.iter().position(|(n, _)| n == name) {
+                Some(i) => i,
+                None => {
+                    self.families
+                        .push((name.to_string(), FamilyStats::default()));
+                    self.families.len() - 1
+                }
+            };
+            &mut self.families[idx].1
+        }
+    }
+
+    fn report_anomaly(kind: &str, count: u64, case_line: &str) {
+        if count as usize > ANOMALY_LINES {
+            return;
+        }
+        let mut line = case_line.to_string();
+        if line.len() > ANOMALY_LINE_MAX {
+            let mut cut = ANOMALY_LINE_MAX;
+            while !line.is_char_boundary(cut) {
+                cut -= 1;
+            }
+            line.truncate(cut);
+            line.push_str(" …");
+        }
+        eprintln!("ANOMALY {kind}: {line}");
+    }
+
+    fn run_and_write(
+        out: &mut impl Write,
+        stats: &mut Stats,
+        case: &RtCase,
+        case_line: &str,
+    ) -> std::io::Result<()> {
+        let t0 = Instant::now();
+        let res = run_rt_case(case);
+        let micros = t0.elapsed().as_micros();
+        writeln!(out, "{case_line}")?;
+        for l in &res.lines {
+            writeln!(out, "{l}")?;
+        }
+        let s = stats.entry(&case.family);
+        s.cases += 1;
+        s.kinds[match case.kind() {
+            'X' => 0,
+            'S' => 1,
+            'H' => 2,
+            _ => 3,
+        }] += 1;
+        s.obs += res.lines.len() as u64;
+        s.micros += micros;
+        let RtFlags {
+            panic,
+            hang,
+            stall,
+            livelock,
+            build_failed,
+            harness_panic,
+        } = res.flags;
+        if panic {
+            s.panic += 1;
+            report_anomaly("panic", s.panic, case_line);
+        }
+        if hang {
+            s.hang += 1;
+            report_anomaly("hang", s.hang, case_line);
+        }
+        if stall {
+            s.stall += 1;
+            report_anomaly("stream-stall", s.stall, case_line);
+        }
+        if livelock {
+            s.livelock += 1;
+            report_anomaly("livelock", s.livelock, case_line);
+        }
+        if build_failed {
+            s.build_failed += 1;
+            report_anomaly("build-failed", s.build_failed, case_line);
+        }
+        if harness_panic {
+            s.harness_panic += 1;
+            report_anomaly("harness-panic", s.harness_panic, case_line);
+        }
+        Ok(())
+    }
+
+    fn print_summary(cmd: &str, stats: &Stats, t0: Instant) -> u64 {
+        let mut harness_panics = 0;
+        for (name, s) in &stats.families {
+            harness_panics += s.harness_panic + s.build_failed;
+            eprintln!(
+                "{cmd} family={} cases={} (X={} S={} H={} Y={}) obs={} panic={} hang={} stream_stall={} livelock={} build_failed={} harness_panic={} ms={}",
+                name,
+                s.cases,
+                s.kinds[0],
+                s.kinds[1],
+                s.kinds[2],
+                s.kinds[3],
+                s.obs,
+                s.panic,
+                s.hang,
+                s.stall,
+                s.livelock,
+                s.build_failed,
+                s.harness_panic,
+                s.micros / 1000
+            );
+        }
+        eprintln!(
+            "{cmd} total cases={} ms={}",
+            stats.families.iter().map(|(_, s)| s.cases).sum::<u64>(),
+            t0.elapsed().as_millis()
+        );
+        harness_panics
+    }
+
+    pub fn main_runtime(args: &[String]) -> i32 {
+        if !check_opts(args, &["--tier", "--seed", "--out"]) {
+            return usage();
+        }
+        let Some(tier) = opt(args, "--tier").and_then(Tier::parse) else {
+            return usage();
+        };
+        let Some(seed) = opt(args, "--seed").and_then(|s| s.parse::<u64>().ok()) else {
+            return usage();
+        };
+        let Some(path) = opt(args, "--out") else {
+            return usage();
+        };
+        let file = match File::create(path) {
+            Ok(f) => f,
+            Err(e) => {
+                eprintln!("cannot create {path}: {e}");
+                return 1;
+            }
+        };
+        let mut out = BufWriter::new(file);
+        let mut stats = Stats::default();
+        let mut io_err: Option<std::io::Error> = None;
+        let t0 = Instant::now();
+
+        // The one PRNG every random choice comes from.
+        let mut rng = Rng::new(seed);
+        crate::rt_gen::generate(tier, &mut rng, &mut |case: RtCase| {
+            if io_err.is_some() {
+                return;
+            }
+            let line = fmt_rt_case(&case);
+            if let Err(e) = run_and_write(&mut out, &mut stats, &case, &line) {
+                io_err = Some(e);
+            }
+        });
+
+        for (name, s) in &stats.families {
+            // No timings in the file: same tier and seed => byte-identical output.
+            if let Err(e) = writeln!(out, "STATS runtime family={} cases={}", name, s.cases) {
+                io_err.get_or_insert(e);
+            }
+        }
+        if let Err(e) = out.flush() {
+            io_err.get_or_insert(e);
+        }
+        let harness_panics = print_summary("runtime", &stats, t0);
+        if let Some(e) = io_err {
+            eprintln!("write error on {path}: {e}");
+            return 1;
+        }
+        if harness_panics > 0 {
+            eprintln!("{harness_panics} case(s) failed inside the harness (see `PANIC` / `B P` lines)");
+            return 3;
+        }
+        0
+    }
+
+    pub fn main_runtime_replay(args: &[String]) -> i32 {
+        if !check_opts(args, &["--in", "--out"]) {
+            return usage();
+        }
+        let (Some(inp), Some(outp)) = (opt(args, "--in"), opt(args, "--out")) else {
+            return usage();
+        };
+        let reader = match File::open(inp) {
+            Ok(f) => BufReader::new(f),
+            Err(e) => {
+                eprintln!("cannot open {inp}: {e}");
+                return 1;
+            }
+        };
+        let mut out = match File::create(outp) {
+            Ok(f) => BufWriter::new(f),
+            Err(e) => {
+                eprintln!("cannot create {outp}: {e}");
+                return 1;
+            }
+        };
+        let mut stats = Stats::default();
+        let mut bad_lines = 0u64;
+        let t0 = Instant::now();
+        for (lineno, line) in reader.lines().enumerate() {
+            let line = match line {
+                Ok(l) => l,
+                Err(e) => {
+                    eprintln!("read error on {inp}: {e}");
+                    return 1;
+                }
+            };
+            match parse_rt_case_line(&line) {
+                Ok(None) => {}
+                Ok(Some(case)) => {
+                    // The CASE line is copied verbatim.
+                    if let Err(e) = run_and_write(&mut out, &mut stats, &case, line.trim_end()) {
+                        eprintln!("write error on {outp}: {e}");
+                        return 1;
+                    }
+                }
+                Err(e) => {
+                    bad_lines += 1;
+                    eprintln!("{inp}:{}: skipped: {e}", lineno + 1);
+                }
+            }
+        }
+        if let Err(e) = out.flush() {
+            eprintln!("write error on {outp}: {e}");
+            return 1;
+        }
+        let harness_panics = print_summary("runtime-replay", &stats, t0);
+        if bad_lines > 0 {
+            eprintln!("{bad_lines} malformed CASE line(s) skipped");
+            return 1;
+        }
+        if harness_panics > 0 {
+            return 3;
+        }
+        0
+    }
 }
